@@ -537,9 +537,12 @@ def handleResponse (s : Svc) (o : Oracle) (peer : Nat) (addr : Addr) (id : Nat) 
   match s.removeActive id with
   | (_, none) => (s, [])
   | (s0, some req) =>
+    -- Both early returns below drop the removed request, and with it a user-level callback: the
+    -- waiting API future then resolves to an error (`oneshot` sender dropped).
+    let dropped : List Out := if req.callback then [.callback id .err] else []
     -- response from an address other than the one the request was sent to
-    if req.peer != peer || req.addr != addr then (s0, []) else
-    if !body.matchRequest req.body then (s0, []) else
+    if req.peer != peer || req.addr != addr then (s0, dropped) else
+    if !body.matchRequest req.body then (s0, dropped) else
     match body with
     | .nodes total recs =>
       let requested := match req.body with | .findNode ds => ds | _ => []
